@@ -12,7 +12,7 @@ use serde_json::{Value, json};
 
 use crate::check::{Check, Tier, Verdict, Violation};
 use crate::runner::SimShell;
-use crate::world::Rng;
+use crate::world::{self, Rng, SimConfig, Strategy};
 
 #[derive(Clone, Debug, Serialize, Deserialize, PartialEq)]
 pub enum Op {
@@ -44,6 +44,9 @@ pub enum Op {
     Clear,
     /// toggle HISTTIMEFORMAT in the current session
     ToggleTs,
+    /// the current session and the next one save (append) at the same time: two participants
+    /// under the seeded scheduler, with a scheduling point at every write call on the file
+    RaceSave,
 }
 
 pub const CMDS: &[&str] = &["echo a", "  ls -l  ", "x", "echo a", "\tpwd", "echo '# not a comment'", "   "];
@@ -55,6 +58,9 @@ pub struct Case {
     pub ops: Vec<Op>,
     /// initial file content (lines)
     pub initial: Vec<String>,
+    /// seed of the schedules of `RaceSave` operations
+    #[serde(default)]
+    pub race_seed: u64,
 }
 
 // ---------------------------------------------------------------------------------------
@@ -351,6 +357,84 @@ pub fn judge(case: &Case) -> Verdict {
             Op::Next => {
                 cur = (cur + 1) % sessions.len();
             }
+            Op::RaceSave => {
+                if sessions.len() >= 2 {
+                    let a = cur;
+                    let b = (cur + 1) % sessions.len();
+                    // what each session is about to append, as (command, timestamp written)
+                    let pending = |m: &MSession| -> Vec<(String, Option<i64>)> {
+                        m.items.iter().filter(|i| i.dirty).map(|i| (i.cmd.clone(), if m.ts_enabled { i.ts } else { None })).collect()
+                    };
+                    let (exp_a, exp_b) = (pending(&models[a]), pending(&models[b]));
+                    let before = read_file(&histfile);
+                    if before != file_model {
+                        v.harness_error = Some("file and model differ before a race".into());
+                        return v;
+                    }
+                    let mut cfg = SimConfig::default();
+                    cfg.seed = case.race_seed ^ (k as u64).wrapping_mul(0x9e37_79b9_7f4a_7c15);
+                    cfg.strategy = Strategy::Uniform;
+                    cfg.budget = 5_000;
+                    world::begin_run(cfg, vec![]);
+                    let mut handles = vec![];
+                    for sh in [sessions[a].shell.clone(), sessions[b].shell.clone()] {
+                        let tok = world::task_spawn("session");
+                        handles.push(std::thread::spawn(move || {
+                            world::task_begin(tok);
+                            struct End(u64);
+                            impl Drop for End {
+                                fn drop(&mut self) {
+                                    world::task_end(self.0);
+                                }
+                            }
+                            let _end = End(tok);
+                            sh.blocking_lock().save_history().map_err(|e| e.to_string())
+                        }));
+                    }
+                    world::wait_all();
+                    let w = world::end_run();
+                    v.decisions += w.decisions;
+                    v.shapes.push(w.shapehash);
+                    let mut failed = None;
+                    for h in handles {
+                        match h.join() {
+                            Ok(Ok(())) => {}
+                            Ok(Err(e)) => failed = Some(e),
+                            Err(_) => failed = Some("a saving session panicked".to_string()),
+                        }
+                    }
+                    if let Some(e) = failed {
+                        v.violation = Some(viol("C20/op-failed", format!("{}: {e}", describe(&case.ops, k))));
+                        return v;
+                    }
+                    v.stats.fire("concurrent_saves");
+                    let after = read_file(&histfile);
+                    let ok_prefix = after.len() >= before.len() && after[..before.len()] == before[..];
+                    let tail: Vec<String> = if ok_prefix { after[before.len()..].to_vec() } else { vec![] };
+                    let got: Vec<(String, Option<i64>)> = model_import(&tail).into_iter().map(|i| (i.cmd, i.ts)).collect();
+                    let lines_want = exp_a.iter().chain(exp_b.iter()).map(|(_, t)| 1 + usize::from(t.is_some())).sum::<usize>();
+                    // an order-preserving merge of the two sequences?
+                    fn merge_ok(g: &[(String, Option<i64>)], a: &[(String, Option<i64>)], b: &[(String, Option<i64>)]) -> bool {
+                        match g.split_first() {
+                            None => a.is_empty() && b.is_empty(),
+                            Some((x, rest)) => (a.first() == Some(x) && merge_ok(rest, &a[1..], b)) || (b.first() == Some(x) && merge_ok(rest, a, &b[1..])),
+                        }
+                    }
+                    if !ok_prefix || tail.len() != lines_want || !merge_ok(&got, &exp_a, &exp_b) {
+                        v.violation = Some(viol(
+                            "C20/race/file-corrupted",
+                            format!("{}: two sessions appended {exp_a:?} and {exp_b:?} at the same time; the file gained {tail:?} (every command must appear once, whole, in its session's order, with its timestamp)", describe(&case.ops, k)),
+                        ));
+                        return v;
+                    }
+                    file_model = after;
+                    for x in [a, b] {
+                        for it in &mut models[x].items {
+                            it.dirty = false;
+                        }
+                    }
+                }
+            }
             Op::Del(off) => {
                 let _ = run(&mut sessions[cur], &format!("history -d {off}"));
                 let n = models[cur].items.len() as i64;
@@ -419,7 +503,7 @@ pub fn judge(case: &Case) -> Verdict {
 }
 
 fn all_ops() -> Vec<Op> {
-    vec![Op::Add(0), Op::Add(1), Op::RlAdd(2), Op::AddS(0), Op::Save, Op::SaveA, Op::New, Op::Drop, Op::Exit, Op::Next, Op::Del(1), Op::Del(-1), Op::Clear, Op::ToggleTs]
+    vec![Op::Add(0), Op::Add(1), Op::RlAdd(2), Op::AddS(0), Op::Save, Op::SaveA, Op::New, Op::Drop, Op::Exit, Op::Next, Op::Del(1), Op::Del(-1), Op::Clear, Op::ToggleTs, Op::RaceSave]
 }
 
 impl Check for C20 {
@@ -437,7 +521,7 @@ impl Check for C20 {
         let maxlen = if tier == Tier::Thorough { 12 } else { 9 };
         let n = rng.range(5, maxlen);
         let ops: Vec<Op> = (0..n)
-            .map(|_| match rng.below(20) {
+            .map(|_| match rng.below(21) {
                 0..=2 => Op::Add(rng.below(CMDS.len() as u64) as usize),
                 3..=4 => Op::RlAdd(rng.below(CMDS.len() as u64) as usize),
                 5..=6 => Op::AddS(rng.below(WORDS.len() as u64) as usize),
@@ -449,6 +533,7 @@ impl Check for C20 {
                 14..=15 => Op::Next,
                 16 => Op::Del(*rng.pick(&[1i64, 2, 3, -1, -2, -3, 7, 0])),
                 17 => Op::Clear,
+                18 => Op::RaceSave,
                 _ => Op::ToggleTs,
             })
             .collect();
@@ -457,7 +542,7 @@ impl Check for C20 {
             1 => vec!["#1700000001".to_string(), "stamped".to_string(), "plain".to_string()],
             _ => vec![],
         };
-        serde_json::to_value(Case { class: "seeded".into(), ops, initial }).unwrap_or(Value::Null)
+        serde_json::to_value(Case { class: "seeded".into(), ops, initial, race_seed: rng.next() }).unwrap_or(Value::Null)
     }
     fn exhaustive(&self, tier: Tier) -> Vec<Value> {
         // all sequences up to length L over the operation alphabet
@@ -467,7 +552,7 @@ impl Check for C20 {
         let mut stack: Vec<Vec<Op>> = vec![vec![]];
         while let Some(seq) = stack.pop() {
             if !seq.is_empty() {
-                out.push(serde_json::to_value(Case { class: format!("exhaustive-len-{}", seq.len()), ops: seq.clone(), initial: vec![] }).unwrap_or(Value::Null));
+                out.push(serde_json::to_value(Case { class: format!("exhaustive-len-{}", seq.len()), ops: seq.clone(), initial: vec![], race_seed: 7 }).unwrap_or(Value::Null));
             }
             if seq.len() < max_len {
                 for o in &ops {
